@@ -21,7 +21,7 @@ func (c08) Gen(rng *rand.Rand, tier string, idx int) Case {
 		u := []int64{500, 1000}[rng.Intn(2)]
 		size, slide := p[0]*u, p[1]*u
 		o := []int64{0, slide, size, 2*size + 1}[rng.Intn(4)]
-		c.Cfg = [][]string{{"kind", "sqlsliding"}, {"size", itoa(size)}, {"slide", itoa(slide)}, {"ooo", itoa(o)}, {"late", "0"}, {"now", "0"}}
+		c.Cfg = [][]string{{"kind", "sqlsliding"}, {"size", itoa(size)}, {"slide", itoa(slide)}, {"ooo", itoa(o)}, {"late", "0"}, {"now", "0"}, {"spell", []string{"ms", "go"}[rng.Intn(2)]}}
 		genSQLWindow(rng, &c, slide, o)
 		return c
 	}
